@@ -613,9 +613,11 @@ class Interp:
         cond = self.eval(st.test, frame)
         site = frame.site("assert", st)
         g = self.as_goal(cond)
-        if g is True:
-            return
         src = ast.unparse(st.test)
+        if g is True:
+            # decided by the path condition / structurally: recorded so that the assert counts as covered
+            self.path.prove(True, site, kind="assert", desc=f"assert {src}", props=self.config.get("implicit_props"))
+            return
         ok = self.path.prove(g, site, kind="assert", desc=f"assert {src}", props=self.config.get("implicit_props"))
         # continue under the assumption (obligation + continue, DESIGN §2.6)
         self.path.assume(g if not isinstance(g, bool) else g)
